@@ -215,7 +215,9 @@ func check(cfg *Config, prop string, writeEvidence bool) int {
 			inconc = append(inconc, "engine error: "+e)
 		}
 		if r.H.Opts["claims"] == "none" {
-			// finding-only harness: it keeps a known defect visible and claims nothing else
+			// finding-only / bug-hunting-only harness: it keeps a known defect visible or searches for
+			// counter-examples; obligations the solver left undecided are recorded, nothing is claimed
+			r.Undecided = append(r.Undecided, r.Inconclusive...)
 			r.Inconclusive = nil
 		}
 		inconc = append(inconc, r.Inconclusive...)
@@ -424,6 +426,10 @@ func writeEvidenceFile(cfg *Config, prop string, results []*HarnessResult, viola
 			"bounds": map[string]interface{}{"loop_unwind_per_site": r.H.Unwind, "obligation_timeout_s": r.H.OblTO.Seconds(), "max_paths": r.H.MaxPaths, "options": r.H.Opts},
 			"obligations": obls, "reachability_witnesses": r.Reaches, "fp_operations_encoded": r.FpOps, "doc": r.H.Doc, "paths_cut_at_unwind_bound": r.UnwindCuts, "paths_blocked_forever": r.Blocked,
 		}
+		if r.H.Opts["claims"] == "none" {
+			hd["claims"] = "none: bug-hunting / finding-only harness; obligations the solver did not decide (listed under undecided) are NOT claimed, only confirmed counter-examples are reported"
+			hd["undecided"] = r.Undecided
+		}
 		if r.H.Conc {
 			hd["thread_path_combinations"] = r.ConcCombos
 			hd["combinations_pruned_without_solver"] = r.PrunedCombos
@@ -432,7 +438,7 @@ func writeEvidenceFile(cfg *Config, prop string, results []*HarnessResult, viola
 			hd["combinations_with_a_consistent_schedule"] = r.FeasibleCombos
 			hd["events_encoded"] = r.Events
 		}
-		if len(results) <= 40 || len(r.Candidates) > 0 || len(r.Inconclusive) > 0 {
+		if len(results) <= 40 || len(r.Candidates) > 0 || len(r.Inconclusive) > 0 || len(r.Undecided) > 0 {
 			perHarness = append(perHarness, hd)
 		} else {
 			perHarness = append(perHarness, map[string]interface{}{"harness": r.H.Pkg + "." + r.H.Name, "pair": r.H.Opts["pair"], "thread_path_combinations": r.ConcCombos,
